@@ -140,6 +140,11 @@ def render_event(ev, pending):
         return f"{lead}8 Err: bad {pay['i']}" + pay.get('eol', '\r\n')
     if kind == 'nameerr':       # begins with the name but carries Err:
         return f"{name},Err: {pay['j']}" + pay.get('eol', '\r\n')
+    if kind == 'wrong1':        # wrong name that shares the FIRST letter with a two-character name (TD / TR,0 for T3)
+        if len(name) == 2:
+            second = next(c for c in 'DR3M' if c != name[1])
+            return name[0] + second + (',0' if pay['m'] % 2 else '') + pay.get('eol', '\r\n')
+        kind = 'wrong'
     if kind == 'wrong':         # well-formed line that answers some other request
         cands = ['ZZ,1', 'QS,5,6', 'OK', 'QG,3E', 'Q', 'XM', 'QC,0300,0301', 'QL,9']
         k = pay['m'] % len(cands)
@@ -161,6 +166,9 @@ class Player:
         self.read_log = []                # concrete outcomes of reads so far: str or Raised
         self.obj = None                   # the object under test (to see err / port at the moment of each write)
         self.in_connect = False           # connect()'s handshake only contains SerialException (C15's domain)
+        self.ever_err = None              # first non-None message ever assigned to obj.err (survives erasure)
+        self.watch = False                # log assignments to obj.err (after the harness has set up the state)
+        self.side = []                    # observations of activity on *other* instances during the history
         self.nreads = 0
         self.nwrites = 0
         self.closed = 0
@@ -189,9 +197,9 @@ class FakePort:
             o = 'x'
         p.writes_done = tuple(p.writes_done) + (o,)
         obj = p.obj
-        # ('w', text, ok, err already recorded?, port already None?, exception class)
+        # ('w', text, ok, err set now?, port already None?, exception class, an error was recorded at any earlier time?)
         p.events.append(('w', text, o == 'o', obj is not None and obj.err is not None,
-                         obj is not None and obj.port is None, WRITE_CHARS.get(o)))
+                         obj is not None and obj.port is None, WRITE_CHARS.get(o), p.ever_err is not None))
         if o != 'o':
             raise make_exc(WRITE_CHARS[o], 'write')
         return len(data)
@@ -289,9 +297,81 @@ def vparsed_str(vp):
         return 'OTHER'
 
 
+_WATCHED = {}
+
+
+def watched_class():
+    """EBBMotionWrap through a dynamically created subclass whose __setattr__ logs every assignment to `err`
+    (an error that is recorded and erased again between two port operations is invisible to the port).
+    No repository hook: the real methods run unchanged on the subclass instance."""
+    from plotink import ebb3_motion
+    base = ebb3_motion.EBBMotionWrap
+    if base not in _WATCHED:
+        def __setattr__(self, key, value):
+            if key == 'err':
+                pl = self.__dict__.get('_verif_player')
+                if pl is not None and pl.watch:
+                    old = self.__dict__.get('err')
+                    pl.events.append(('e', old, value))
+                    if value is not None and pl.ever_err is None:
+                        pl.ever_err = value
+            object.__setattr__(self, key, value)
+        _WATCHED[base] = type('EBBMotionWrap', (base,), {'__setattr__': __setattr__, '__module__': base.__module__})
+    return _WATCHED[base]
+
+
+def side_activity(player, obj, kind):
+    """something happens on ANOTHER instance in the same process while `obj` lives: state must not be shared"""
+    import serial as real_serial
+    cls = watched_class()
+    before = obj.err
+    other = cls()
+    obs = {'kind': kind, 'fresh_err': other.err, 'fresh_port_is_none': other.port is None, 'main_err_before': before}
+    if kind in ('ok', 'fail'):
+        p2 = Player([('raise', 'serial')] if kind == 'fail' else [GOOD] * 6, [])
+        p2.obj = other
+        object.__setattr__(other, '_verif_player', p2)
+        other.port = FakePort(p2, real_serial.SerialException)
+        p2.watch = True
+        try:
+            r1 = other.query_steps()
+            other.xy_move(1, 2, 3)
+            obs['other_exc'] = None
+        except Exception as ex:
+            r1 = None
+            obs['other_exc'] = type(ex).__name__
+        obs.update({'other_ret': repr(r1), 'other_err': other.err, 'other_written': list(p2.written)})
+    obs['main_err_after'] = obj.err
+    player.side.append(obs)
+
+
+def judge_side(ctx, desc, player, prop):
+    """other instances: a fresh object starts clean, works against a good device whatever happened to the first
+    object, and nothing done on it changes the first object's recorded error"""
+    for obs in player.side:
+        inp = dict(desc, side=obs['kind'])
+        if obs['fresh_err'] is not None or not obs['fresh_port_is_none']:
+            violate(ctx, 'a newly created object starts with an error / a port', inp, obs, 'err None, port None',
+                    key=f'{prop}:new-instance:inherits-state')
+        if obs['main_err_after'] != obs['main_err_before']:
+            violate(ctx, 'activity on another object changes the recorded error of this one', inp, obs,
+                    'the recorded message is never replaced', key=f'{prop}:other-instance:message-replaced')
+        if obs['kind'] == 'ok' and (obs.get('other_err') is not None or obs.get('other_exc') or len(obs.get('other_written', [])) != 2):
+            violate(ctx, 'an independent, connected, error-free object fails against a correct device', inp, obs,
+                    'both requests transmitted, no error', key=f'{prop}:other-instance:false-error')
+        if obs['kind'] == 'fail' and (obs.get('other_err') is None or len(obs.get('other_written', [])) != 1):
+            violate(ctx, 'an independent object does not latch its own error', inp, obs,
+                    'error recorded on that object, second request not transmitted', key=f'{prop}:other-instance:no-latch')
+
+
+def real_calls(calls):
+    return [c for c in calls if not c[0].startswith('@')]
+
+
 def run_history(state, reads, writes, calls):
     """Run `calls` on a real EBBMotionWrap.  Returns (records, player).  Each record is a dict with the
-    observations of one call."""
+    observations of one call.  Pseudo-calls `('@other', (kind,))` run side activity on another instance and
+    produce no record."""
     from plotink import ebb3_motion, ebb3_serial
     import serial as real_serial
     from packaging.version import parse as vparse
@@ -302,8 +382,9 @@ def run_history(state, reads, writes, calls):
         serialutil = real_serial.serialutil
 
     player = Player(reads, writes)
-    obj = ebb3_motion.EBBMotionWrap()
+    obj = watched_class()()
     player.obj = obj
+    object.__setattr__(obj, '_verif_player', player)
     if state.port:
         obj.port = FakePort(player, real_serial.SerialException)
     obj.err = state.err
@@ -312,10 +393,15 @@ def run_history(state, reads, writes, calls):
     obj.name = state.name
     obj.caller = state.caller
     obj.port_name = state.port_name
+    player.ever_err = state.err
+    player.watch = True
     records = []
     saved = (ebb3_serial.serial, ebb3_serial.comports, ebb3_serial.find_named)
     try:
         for (name, args) in calls:
+            if name == '@other':
+                side_activity(player, obj, args[0])
+                continue
             w0, r0, e0 = len(player.written), player.nreads, len(player.events)
             exc = None
             ret = None
@@ -350,7 +436,7 @@ def run_history(state, reads, writes, calls):
                 'written': player.written[w0:], 'nreads': player.nreads - r0,
                 'port': obj.port is not None, 'err': obj.err, 'version': obj.version,
                 'vparsed': vparsed_str(obj.version_parsed), 'name': obj.name, 'caller': obj.caller,
-                'port_name': obj.port_name, 'events': player.events[e0:],
+                'port_name': obj.port_name, 'events': player.events[e0:], 'ever_err': player.ever_err,
             })
     finally:
         ebb3_serial.serial, ebb3_serial.comports, ebb3_serial.find_named = saved
@@ -366,7 +452,7 @@ def record_tokens(r):
 def model_line(state, creads, cwrites, calls):
     rd = '.' if not creads else ';'.join('X' if is_raise(o) else 'L' + enc_str(o) for o in creads)
     wr = '.' if not cwrites else ''.join('o' if c == 'o' else 'x' for c in cwrites)    # one raise outcome in the model
-    return ' '.join(['ebb3', 'run'] + state.tokens() + [rd, wr] + [enc_call(c) for c in calls])
+    return ' '.join(['ebb3', 'run'] + state.tokens() + [rd, wr] + [enc_call(c) for c in real_calls(calls)])
 
 
 def split_model_answer(ans):
@@ -417,8 +503,9 @@ def arg_classes():
     """method -> list of argument tuples, one per argument class"""
     I32 = [0, 1, -1, -2, 255, 256, 2147483647, -2147483648, 305419896]
     return {
-        'command': [('SM,10,0,0',), (' CS \n',), ('X',), ('X,5',), ('RB',), ('r',), ('BL',), ('  EM,1,1',), (None,)],
-        'query': [('QS',), (' QG\t',), ('V',), ('I,1',), ('QL,3',), ('rb',), ('R',), ('QT',), (None,)],
+        'command': [('SM,10,0,0',), (' CS \n',), ('X',), ('X,5',), ('RB',), ('r',), ('BL',), ('  EM,1,1',), (None,),
+                    ('T3,1,0,0,0,0,0,0,3',), ('S2,0,4,1,1',), ('L3,1,2,3,4,5,6,7,8',)],
+        'query': [('QS',), (' QG\t',), ('V',), ('I,1',), ('QL,3',), ('rb',), ('R',), ('QT',), (None,), ('Q1',), ('T3,9',)],
         'query_statusbyte': [()],
         'reboot': [()], 'bootload': [()],
         'query_nickname': [()],
@@ -493,7 +580,7 @@ def rand_reads(rng, n, fault_rate=0.25):
         if x > fault_rate:
             evs.append(('good', rand_payload(rng)))
         else:
-            k = rng.choice(['empty', 'empty', 'err', 'nameerr', 'wrong', 'raise', 'blank'])
+            k = rng.choice(['empty', 'empty', 'err', 'nameerr', 'wrong', 'wrong1', 'raise', 'blank'])
             if k == 'blank':
                 evs.append(('line', rng.choice(['\r\n', ' ', '\n', '\t\r\n'])))
             elif k == 'raise':
@@ -546,6 +633,8 @@ def fault_kinds():
         'wrong2': [('wrong', dict(DEFAULT_PAY, m=1))],
         'wrong3': [('wrong', dict(DEFAULT_PAY, m=5))],
         'wrong4': [('wrong', dict(DEFAULT_PAY, m=3))],
+        'wrong-same-letter': [('wrong1', dict(DEFAULT_PAY, m=0))],
+        'wrong-same-letter2': [('wrong1', dict(DEFAULT_PAY, m=1))],
         'raise': [('raise', 'serial')],
         'raise-notopen': [('raise', 'notopen')],
         'raise-oserror': [('raise', 'oserror')],
@@ -651,11 +740,15 @@ def request_string_scenarios(rng):
             reqs.append(a + b)
             reqs.append(a + b + ',7,8')
     reqs += ['RB', 'rb', 'R', 'r', 'BL', 'bl', 'Rb,1', 'QG', 'CU,50,0']
+    # two-character names that end in a digit: the real ones (T3 is sent by clear_accumulators; S2, L3 are documented
+    # EBB commands) and synthetic ones; a name whose second character is punctuation
+    reqs += ['T3', 'T3,1,0,0,0,0,0,0,3', 'S2,0,4,1,1', 'L3,1,2,3,4,5,6,7,8', 'S2', 'L3', 'Q1', 'A9,5', 'X0', 'q7,1', 'T_,1', 'T-']
     pads = [('', ''), (' ', ''), ('', '\r\n'), ('\t ', ' \n'), ('\x1f', '\x1c')]
     for req in reqs:
         name = req_name(req)
         replies = [name, name + ',5', req, name[0], name + 'Z', name[0] + 'Z,1', 'Z' + name, name + ' Err: x', '!Err: 1',
-                   name.lower() if name.lower() != name else name.upper(), '', name + ',,5', ',' + name]
+                   name.lower() if name.lower() != name else name.upper(), '', name + ',,5', ',' + name,
+                   name[0] + 'D', name[0] + 'R,0', name[0] + 'M', name[0] + ',0', name[0] + '3', name[0] + '2,1']
         for i, rep in enumerate(replies):
             pl, pr = pads[i % len(pads)]
             for meth in ('command', 'query'):
@@ -703,6 +796,9 @@ def random_scenarios(rng, n, maxlen=30):
         st = State(port=rng.random() < 0.85, err=None if rng.random() < 0.85 else rng.choice(['first', '', 'E']),
                    version=rng.choice([None, None, '3.0.2', '2.9.9']), name=rng.choice([None, 'Old']))
         calls = [rand_call(rng) for _ in range(rng.randint(1, maxlen))]
+        if rng.random() < 0.25:
+            for _ in range(rng.randint(1, 3)):
+                calls.insert(rng.randint(0, len(calls)), ('@other', (rng.choice(['new', 'ok', 'fail']),)))
         reads = rand_reads(rng, rng.randint(0, 60), fault_rate=rng.choice([0, 0.02, 0.1, 0.3]))
         writes = [rng.choice('oooooooooooooooooxpei') for _ in range(rng.randint(0, 12))] if rng.random() < 0.4 else []
         yield Scenario(st, reads, writes, calls, 'random')
@@ -712,14 +808,17 @@ def run_scenarios(ctx, scenarios, oracle, what, ignore=None):
     """run implementation, then the model on the concrete scripts (one driver batch), compare, judge"""
     done = []
     lines = []
+    pl_of = {}
     for sc in scenarios:
         recs, pl = run_history(sc.state, sc.reads, sc.writes, sc.calls)
+        pl_of[id(recs)] = pl
         creads, cwrites = pl.concrete_script()
         lines.append(model_line(sc.state, creads, cwrites, sc.calls))
         done.append((sc, recs, creads, cwrites))
     answers = ctx.driver.batch(lines) if ctx.driver else [None] * len(lines)
     for (sc, recs, creads, cwrites), ans in zip(done, answers):
         desc = jsonable(sc, creads, cwrites)
+        judge_side(ctx, desc, pl_of[id(recs)], what)
         compare(ctx, desc, recs, ans, what, (lambda k, r, outs, _sc=sc, _recs=recs: ignore(_sc, _recs, k, r, outs)) if ignore else None)
         oracle(ctx, sc, recs, desc)
     return len(done)
@@ -922,3 +1021,20 @@ def probe_connect_exceptions(ctx):
             ebb3_serial.serial, ebb3_serial.comports = saved
     ctx.out_of_domain.append({'note': 'connect() handshake with a plain OSError from the port (only SerialException is caught '
                                       'there; judged by C15, not here)', 'observed': seen})
+
+
+def two_object_scenarios():
+    """state carried between objects: another instance is created / used / fails while this one is latched,
+    connected, or fresh; every call of the sequence is judged"""
+    other = lambda k: ('@other', (k,))
+    q = ('query_steps', ())
+    m = ('xy_move', (1, 2, 3))
+    for kinds in (('new',), ('ok',), ('fail',), ('new', 'ok', 'fail')):
+        side = [other(k) for k in kinds]
+        # latched first, then the other object, then this one again
+        yield Scenario(State(port=True), [('raise', 'serial')] + [GOOD] * 6, [], [q] + side + [m, q], 'two-objects:latched')
+        yield Scenario(State(port=True, err='first error'), [GOOD] * 6, [], side + [m, q] + side + [q], 'two-objects:preset')
+        # healthy object, the other one fails: this one keeps working
+        yield Scenario(State(port=True), [GOOD] * 8, [], [q] + side + [m, q], 'two-objects:healthy')
+        yield Scenario(State(port=False), [GOOD] * 8, [], side + [m] + side + [('connect', (None, None, 'COM3', True)), q],
+                       'two-objects:unconnected')
